@@ -1,19 +1,21 @@
-(* Witnesses for defects of fontscan/rune_coverage.go kept as known findings (C11).  Never imported by Props. *)
+(* Former finding F39 of fontscan/rune_coverage.go (C11), now repaired in the library (`fix: RuneSet.includes ignores the
+   empty pages left behind by Delete`).  The former witnesses are kept as regression facts about the model of the
+   repaired code; the general statement is Props/C11.v runeset_includes_iff.  Never imported by Props. *)
 From TV Require Import Model.RuneSet Spec.RuneSet.
 
-(* F23: b = {5} after Delete 5 has no member (Len = 0) but keeps an all-zero page; the empty set a
-   "does not include" it, although the empty set includes the empty set. *)
-Lemma includes_after_delete_refuted :
-  exists r b, (do s <- rsAdd [] r; rsDelete s r) = Ok b /\ rsLen b = 0 /\ rsIncludes [] b = Ok false.
-Proof. exists 5, [mkPage 0 zero_set]. vm_compute. repeat split; reflexivity. Qed.
+(* b = {5} after Delete 5 has no member (Len = 0) but keeps an all-zero page; the empty set includes it *)
+Lemma includes_after_delete_fixed :
+  exists r b, (do s <- rsAdd [] r; rsDelete s r) = Ok b /\ rsLen b = 0 /\ b <> [] /\ rsIncludes [] b = Ok true.
+Proof. exists 5, [mkPage 0 zero_set]. vm_compute. repeat split; try reflexivity. discriminate. Qed.
 
-(* same defect with a non-empty including set: a = {0x200}, b = {0x200} plus an emptied page 1 *)
-Lemma includes_after_delete_nonempty_refuted :
-  exists a b, rsAdd [] 512 = Ok a
+(* a = {0x200}, b = {0x200} plus an emptied page 1: a includes b, and still does not include a real extra rune *)
+Lemma includes_after_delete_nonempty_fixed :
+  exists a b c, rsAdd [] 512 = Ok a
               /\ (do s <- rsAdd a 300; rsDelete s 300) = Ok b
+              /\ rsAdd a 300 = Ok c
               /\ rsLen b = rsLen a /\ rsContains b 512 = Ok true
-              /\ rsIncludes a b = Ok false.
+              /\ rsIncludes a b = Ok true /\ rsIncludes a c = Ok false.
 Proof.
-  eexists _, _. split; [vm_compute; reflexivity|]. split; [vm_compute; reflexivity|].
-  vm_compute. repeat split; reflexivity.
+  eexists _, _, _. split; [vm_compute; reflexivity|]. split; [vm_compute; reflexivity|].
+  split; [vm_compute; reflexivity|]. vm_compute. repeat split; reflexivity.
 Qed.
